@@ -14,7 +14,8 @@ def run(chk):
     stride = 11 if quick else 1
     jobs = [["gs_exh", m, stride, chk.seed % stride] for m in range(4)]
     jobs += [["gs_rand", chk.seed, 3000 if quick else 30000]]
-    m_gs.run(chk, binary, jobs, [m_gs.oracle_c13])
+    rows = m_gs.run(chk, binary, jobs, [m_gs.oracle_c13])
+    m_gs.twin_run(chk, rows)
     chk.cov["exhaustive"] = (stride == 1)
     chk.cov["rule"] = ("the property's small domain (osu: <=8 objects, <=3 sliders, <=2 ticks, 3 origins; taiko <=8; catch <=6 "
                        "fruits, <=3 droplets, <=6 tiny droplets; mania <=8 objects, <=3 holds, classic/lazer) x every miss "
